@@ -146,7 +146,10 @@ impl HashSemiJoinExecutor {
             let exists = keys_chunk
                 .rows()
                 .map(|key| {
-                    key_set.contains(&key.values().map(join_key).collect::<JoinKeys>()) ^ self.anti
+                    let key = key.values().map(join_key).collect::<JoinKeys>();
+                    // NULL is not equal to NULL: a key with a NULL never matches
+                    let has_null = key.iter().any(|k| k.is_null());
+                    (!has_null && key_set.contains(&key)) ^ self.anti
                 })
                 .collect::<Vec<bool>>();
             yield chunk.filter(&exists);
@@ -194,7 +197,11 @@ impl HashSemiJoinExecutor2 {
             let mut exists = Vec::with_capacity(chunk.cardinality());
             for (key, lrow) in keys_chunk.rows().zip(chunk.rows()) {
                 let key = key.values().map(join_key).collect::<JoinKeys>();
-                let b = if let Some(rchunk) = key_set.get(&key) {
+                // NULL is not equal to NULL: a key with a NULL never matches
+                let has_null = key.iter().any(|k| k.is_null());
+                let b = if has_null {
+                    false
+                } else if let Some(rchunk) = key_set.get(&key) {
                     let lchunk = self.left_row_to_chunk(&lrow, rchunk.cardinality());
                     let join_chunk = lchunk.row_concat(rchunk.clone());
                     let ArrayImpl::Bool(a) = Evaluator::new(&self.condition).eval(&join_chunk)?
